@@ -232,10 +232,74 @@ def import_rows(job):
                     out.append(("import-shape", f"expected one call instruction in f, found {len(calls)}", case))
                     continue
                 out.append(judge("import", code, 2 if calls[0].Function in local else 1, case))
+            # BOTH overloads live in the imported module (not exported, in both orders); the importing module only calls
+            for order in ((0, 1), (1, 0)):
+                lib2 = "".join(f"function g({', '.join(f'{t} p{j}' for j, t in enumerate(cands[k]))}) -> int {{ return {k + 1}; }}\n" for k in order)
+                with quiet():
+                    r = Compiler.Compiler().Compile(lib2, {})
+                if r is None:
+                    out.append((None, "unjudged-lib-rejected", None))
+                    continue
+                names2 = list(r.IRModule.Functions)
+                if len(names2) != 2:
+                    out.append((None, "unjudged-lib-shape", None))
+                    continue
+                pickle.dump(r.IRModule, open(f"lib2{order[0]}.nslir", "wb"))
+                for code, args in zip(row["row"], argseq):
+                    src = f'import "lib2{order[0]}";\n' + f"export function f({', '.join(f'{t} a{j}' for j, t in enumerate(args))}) -> int\n{{\n  return g({', '.join(f'a{j}' for j in range(len(args)))});\n}}\n"
+                    case = {"overloads": cands, "both_imported_in_order": list(order), "call_argument_types": args, "prescribed": describe(code, cands), "source": src, "library": lib2}
+                    try:
+                        with time_limit(300):
+                            st, r2 = common.compile_source(src, {})
+                    except CaseTimeout:
+                        out.append(("e2e-timeout", "case did not finish in 300 s", case))
+                        continue
+                    if st != "ok":
+                        out.append(judge("import", code, "reject:" + r2[:50], case))
+                        continue
+                    from nsl import LinearIR
+                    calls = [i for i in r2.IRModule.Functions["f"].Instructions if isinstance(i, LinearIR.CallInstruction)]
+                    if len(calls) != 1 or calls[0].Function not in names2:
+                        out.append(("import-shape", f"expected one call of an imported g in f, found {[c.Function for c in calls]}", case))
+                        continue
+                    out.append(judge("import", code, order[names2.index(calls[0].Function)] + 1, case))
         finally:
             os.chdir(cwd)
             import shutil
             shutil.rmtree(d, ignore_errors=True)
+    return out
+
+
+def dup_rows(job):
+    """One parameter list declared twice, with result types int and float: every call is rejected (the best score is shared, or nothing is viable)."""
+    rows, argseq = job
+    out = []
+    for row in rows:
+        sig = row["cands"][0]
+        ps = ', '.join(f'{t} p{j}' for j, t in enumerate(sig))
+        defs = [f"function g({ps}) -> int {{ return 101; }}\n", f"function g({ps}) -> float {{ return 102.5; }}\n"]
+        for code, args in zip(row["row"], argseq):
+            for order in ((0, 1), (1, 0)):
+                for rt in ("int", "float"):
+                    src = defs[order[0]] + defs[order[1]] + f"export function f({', '.join(f'{t} a{j}' for j, t in enumerate(args))}) -> {rt}\n{{\n  return g({', '.join(f'a{j}' for j in range(len(args)))});\n}}\n"
+                    case = {"overloads": [sig + ["-> int"], sig + ["-> float"]], "call_argument_types": args, "prescribed": describe(code, row["cands"]), "source": src}
+                    try:
+                        with time_limit(300):
+                            st, r = common.compile_source(src, {})
+                            if st != "ok":
+                                out.append(judge("dup", code, "reject:" + r[:50], case))
+                                continue
+                            vm = common.link_vm(r)
+                            try:
+                                with quiet():
+                                    v = vm.Invoke("f", **{f"a{j}": pyval(t) for j, t in enumerate(args)})
+                            except CaseTimeout:
+                                raise
+                            except BaseException as e:  # noqa
+                                v = "vm:" + type(e).__name__
+                            out.append(judge("dup", code, {101: 1 + order.index(0), 102.5: 1 + order.index(1)}.get(v, 9), dict(case, vm_result=repr(v))))
+                    except CaseTimeout:
+                        out.append(("e2e-timeout", "case did not finish in 300 s", case))
     return out
 
 
@@ -269,6 +333,11 @@ def run(ctx, args):
     rows_v = [r for r in resv.records if "cands" in r]
     if len(rows_v) != 21 + 21 * 20:
         raise common.Machinery(f"expected 441 rows for the vector universe, got {len(rows_v)}")
+    resd = ctx.tlc("MC_C10", cfg.replace(f'Tier = "{ctx.tier}"', 'Tier = "dups"').replace("MaxCands = 3", "MaxCands = 2"), timeout=3000)
+    argseq_d = [r for r in resd.records if "argseq" in r][0]["argseq"]
+    rows_d = [r for r in resd.records if "cands" in r]
+    if len(rows_d) != 13 or any(c > 0 for r in rows_d for c in r["row"]):
+        raise common.Machinery(f"expected 13 rows without a chosen candidate for the duplicate universe, got {len(rows_d)}")
     two = [r for r in rows if len(r["cands"]) == 2 and all(len(c) <= 2 for c in r["cands"])]
     if not quick:
         two = rnd.sample(two, 300)
@@ -278,6 +347,7 @@ def run(ctx, args):
         re_ = pool.map(e2e_rows, jobs_e)
         re_ += pool.map(twocall_rows, [(c, argseq_v) for c in chunks(rows_v, 16)])
         re_ += pool.map(import_rows, [(c, argseq) for c in chunks(two, 6)])
+        re_ += pool.map(dup_rows, [(c, argseq_d) for c in chunks(rows_d, 1)])
     counts = {}
     evals = 0
     for tag, res_ in (("iface", ri), ("e2e", re_)):
